@@ -94,7 +94,7 @@ def run(ctx):
     jobs = []
     for ci, cfg in enumerate(cfgs):
         main = ci < 3
-        n = ctx.scale(12, 80) if main else ctx.scale(3, 30)
+        n = ctx.scale(8, 80) if main else ctx.scale(3, 30)
         for lf in L.TYPES:
             for i in range(n):
                 trig = i % 6 == 0 and lf != (64, 32) or (ctx.thorough and i % 10 == 0)
@@ -107,6 +107,7 @@ def run(ctx):
     for lf, prog in KNOWN_DIRECTED:
         jobs.append((f'known:{lf}', (1, 0, False), lf, ctx.seed, {'prog': prog, 'forced': False}))
         jobs.append((f'known3:{lf}', (3, 1, False), lf, ctx.seed, {'prog': prog, 'forced': False}))
+    jobs += L.prod_sweep_jobs(ctx, 'c02', forced=False)
     results = L.explore(ctx, jobs)
     items = []
     for r in results:
